@@ -1,5 +1,8 @@
 #[cfg(feature = "crypto_openssl")]
 mod openssl_server;
+#[cfg(feature = "breard_r_acmed_verif")]
+#[path = "/verif/sim/tacd/mod.rs"]
+mod verif;
 
 #[cfg(feature = "crypto_openssl")]
 use crate::openssl_server::start as server_start;
